@@ -289,7 +289,8 @@ def contraction_adjoints(ctx, world):
             vals = {params[0]: (B if which == 0 else A), params[1]: G, params[2]: ax_val, params[3]: na, params[4]: nb}
             C = TypeAware(world, {}, None, None)
             for pn, sym in syms.items():
-                C.bind[id(sym)] = vals[pn]
+                if pn in vals:
+                    C.bind[id(sym)] = vals[pn]
             try:
                 res = C.of(r)
             except Raises:
@@ -338,7 +339,8 @@ def contraction_adjoints(ctx, world):
                 vals = {params[0]: (B if which == 0 else A), params[1]: G, params[2]: meta(na), params[3]: meta(nb)}
                 C = TypeAware(world, {}, None, None)
                 for pn, sym in syms.items():
-                    C.bind[id(sym)] = vals[pn]
+                    if pn in vals:
+                        C.bind[id(sym)] = vals[pn]
                 try:
                     res = C.of(r)
                 except Raises:
